@@ -694,3 +694,158 @@ func c20positions(c *Ctx) {
 	sort.Strings(bad)
 	c.R.Check(len(bad) == 0 && inConfirmed >= 2, rule, goctlAst+"#position-dependent-layout", "source line/column numbers decide layout only in (*Writer).write's consecutive-node comparison (confirmed stable); no other function of the ast/format packages branches on them", "-", fmt.Sprintf("%d deciding reads, %d in the confirmed site; %s", reads, inConfirmed, strings.Join(bad, "; ")), bad, reads)
 }
+
+// c20scannerErrors (R15, round 6): the parser builds its scanner through MustNewScanner, which turns every error of
+// NewScanner into log.Fatalln (known finding F6 records the one class that exists: an empty source). This rule freezes
+// the classes: NewScanner returns a non-nil error only (a) as readData's own error or (b) under `len(data) == 0`;
+// readData fails only (a) as os.ReadFile's error or (b) after every supported source type ([]byte, *bytes.Buffer,
+// string) was tried. A further rejected class (an encoding check, a size limit …) terminates every process that
+// formats or parses such a source instead of giving it an error.
+func c20scannerErrors(c *Ctx) {
+	rule := "C20.R15"
+	ns := c.fn(rule, goctlScan, "NewScanner")
+	rd := c.fn(rule, goctlScan, "readData")
+	if ns == nil || rd == nil {
+		return
+	}
+	// every value a function can return as its error, with the block that produced it
+	type src struct {
+		v ssa.Value
+		b *ssa.BasicBlock
+	}
+	errSources := func(f *ssa.Function) []src {
+		var out []src
+		seen := map[ssa.Value]bool{}
+		var walk func(v ssa.Value, b *ssa.BasicBlock)
+		walk = func(v ssa.Value, b *ssa.BasicBlock) {
+			if seen[v] {
+				return
+			}
+			seen[v] = true
+			switch x := v.(type) {
+			case *ssa.Phi:
+				for i, e := range x.Edges {
+					walk(e, x.Block().Preds[i])
+				}
+			case *ssa.Const:
+				if !x.IsNil() {
+					out = append(out, src{v, b})
+				}
+			case *ssa.MakeInterface:
+				out = append(out, src{v, x.Block()})
+			case *ssa.Call:
+				out = append(out, src{v, x.Block()})
+			case *ssa.Extract:
+				out = append(out, src{v, x.Block()})
+			case *ssa.UnOp:
+				if al, ok := x.X.(*ssa.Alloc); ok {
+					for _, r := range *al.Referrers() {
+						if st, ok := r.(*ssa.Store); ok && st.Addr == al {
+							walk(st.Val, st.Block())
+						}
+					}
+					return
+				}
+				out = append(out, src{v, x.Block()})
+			default:
+				out = append(out, src{v, b})
+			}
+		}
+		for _, b := range f.Blocks {
+			for _, ins := range b.Instrs {
+				if r, ok := ins.(*ssa.Return); ok && len(r.Results) > 0 {
+					walk(r.Results[len(r.Results)-1], b)
+				}
+			}
+		}
+		return out
+	}
+	extractOf := func(v ssa.Value, callee string) bool {
+		ex, ok := v.(*ssa.Extract)
+		if !ok {
+			return false
+		}
+		call, ok := ex.Tuple.(*ssa.Call)
+		return ok && calleeName(call.Common()) == callee
+	}
+	// NewScanner
+	var bad []string
+	classes := 0
+	var data ssa.Value
+	for _, b := range ns.Blocks {
+		for _, ins := range b.Instrs {
+			if ex, ok := ins.(*ssa.Extract); ok && ex.Index == 0 && extractOf(ex, mod+goctlScan+".readData") {
+				data = ex
+			}
+		}
+	}
+	for _, s := range errSources(ns) {
+		if extractOf(s.v, mod+goctlScan+".readData") {
+			classes++
+			continue
+		}
+		// under len(data) == 0
+		ok := false
+		for d := s.b; d != nil && !ok; d = d.Idom() {
+			id := d.Idom()
+			if id == nil || len(id.Instrs) == 0 {
+				continue
+			}
+			br, isIf := id.Instrs[len(id.Instrs)-1].(*ssa.If)
+			if !isIf || !(id.Succs[0] == d || id.Succs[0].Dominates(s.b)) || len(id.Succs[0].Preds) != 1 {
+				continue
+			}
+			if cmp, isCmp := br.Cond.(*ssa.BinOp); isCmp && cmp.Op == token.EQL {
+				if k, isK := cmp.Y.(*ssa.Const); isK && k.Value != nil && k.Int64() == 0 {
+					if l, isL := cmp.X.(*ssa.Call); isL {
+						if bi, isB := l.Call.Value.(*ssa.Builtin); isB && bi.Name() == "len" && data != nil && l.Call.Args[0] == data {
+							ok = true
+						}
+					}
+				}
+			}
+		}
+		if ok {
+			classes++
+			continue
+		}
+		bad = append(bad, fmt.Sprintf("%s: NewScanner fails for a further class of sources (%s): parser.New obtains its scanner through MustNewScanner, so format.Source / Parser.Parse end the process (log.Fatalln) for such a source instead of reporting an error", c.P.Pos(s.v.Pos()), strings.SplitN(s.v.String(), "\n", 2)[0]))
+	}
+	sort.Strings(bad)
+	c.R.Check(len(bad) == 0 && classes == 2, rule, goctlScan+".NewScanner#error-classes", "NewScanner returns an error only as readData's error or for an empty source (the class recorded as F6)", posOf(c, ns), fmt.Sprintf("%d confirmed classes; %s", classes, strings.Join(bad, "; ")), bad, classes)
+	// readData
+	var rbad []string
+	rclasses := 0
+	for _, s := range errSources(rd) {
+		if extractOf(s.v, "os.ReadFile") {
+			rclasses++
+			continue
+		}
+		// after every supported type was tried: the block is dominated by the failing outcome of three type tests on src
+		failed := map[string]bool{}
+		for d := s.b; d != nil; d = d.Idom() {
+			id := d.Idom()
+			if id == nil || len(id.Instrs) == 0 {
+				continue
+			}
+			br, isIf := id.Instrs[len(id.Instrs)-1].(*ssa.If)
+			if !isIf || !(id.Succs[1] == d || id.Succs[1].Dominates(s.b)) {
+				continue
+			}
+			if ex, isEx := br.Cond.(*ssa.Extract); isEx && ex.Index == 1 {
+				if ta, isTA := ex.Tuple.(*ssa.TypeAssert); isTA && ta.CommaOk {
+					if _, isP := ta.X.(*ssa.Parameter); isP {
+						failed[typeString(ta.AssertedType)] = true
+					}
+				}
+			}
+		}
+		if failed["[]byte"] && failed["string"] && failed["*bytes.Buffer"] {
+			rclasses++
+			continue
+		}
+		rbad = append(rbad, fmt.Sprintf("%s: readData fails for a further class of sources (%s)", c.P.Pos(s.v.Pos()), strings.SplitN(s.v.String(), "\n", 2)[0]))
+	}
+	sort.Strings(rbad)
+	c.R.Check(len(rbad) == 0 && rclasses == 2, rule, goctlScan+".readData#error-classes", "readData returns an error only as os.ReadFile's error or for a source that is none of []byte, *bytes.Buffer, string (format.Source passes []byte)", posOf(c, rd), fmt.Sprintf("%d confirmed classes; %s", rclasses, strings.Join(rbad, "; ")), rbad, rclasses)
+}
